@@ -244,6 +244,125 @@ theorem swapTri_area (a b c d : V3 ℝ) :
   simp only [triNormal, cross, V3.sub, sub_eq, mul_eq]
   ring
 
+/-! ## histories -/
+
+/-- no row of the group repeats a vertex -/
+def NoRepeat (np : Nat) (cs : List Cell) : Prop := ∀ c ∈ cs, (nodesOf np c).Nodup
+
+/-- `new` is referenced by no row of the group -/
+def Fresh (np : Nat) (new : Int) (cs : List Cell) : Prop := ∀ c ∈ cs, new ∉ nodesOf np c
+
+theorem subst_nodup (np : Nat) (old new : Int) (c : Cell) (hnd : (nodesOf np c).Nodup)
+    (hf : new ∉ nodesOf np c ∨ old ∉ nodesOf np c) : (nodesOf np (subst np old new c)).Nodup := by
+  rw [nodesOf_subst]
+  apply List.Nodup.map_on _ hnd
+  intro x hx y hy hxy
+  by_cases h1 : x = old <;> by_cases h2 : y = old
+  · rw [h1, h2]
+  · simp only [h1, h2, if_true, if_false] at hxy
+    rcases hf with hf | hf
+    · exact absurd (hxy ▸ hy) hf
+    · exact absurd (h1 ▸ hx) hf
+  · simp only [h1, h2, if_true, if_false] at hxy
+    rcases hf with hf | hf
+    · exact absurd (hxy ▸ hx) hf
+    · exact absurd (h2 ▸ hy) hf
+  · simpa [h1, h2] using hxy
+
+/-- a split with a fresh vertex creates no cell with a repeated vertex -/
+theorem splitSpec_noRepeat (np : Nat) (n0 n1 new : Int) (cs : List Cell) (h : NoRepeat np cs)
+    (hf : Fresh np new cs) : NoRepeat np (splitSpec np n0 n1 new cs) := by
+  intro c hc
+  simp only [splitSpec, List.mem_flatMap] at hc
+  obtain ⟨c0, hc0, hc⟩ := hc
+  unfold splitSpecCell at hc
+  split at hc
+  · simp only [List.mem_cons, List.not_mem_nil, or_false] at hc
+    rcases hc with rfl | rfl
+    · rw [Refine.Model.MeshOps.splitV1_fresh np n0 n1 new c0 (hf c0 hc0)]
+      exact subst_nodup np n1 new c0 (h c0 hc0) (Or.inl (hf c0 hc0))
+    · exact subst_nodup np n0 new c0 (h c0 hc0) (Or.inl (hf c0 hc0))
+  · simp only [List.mem_cons, List.not_mem_nil, or_false] at hc
+    rw [hc]; exact h c0 hc0
+
+/-- a collapse creates no cell with a repeated vertex (cells containing both end points are removed first) -/
+theorem collapseSpec_noRepeat (np : Nat) (n0 n1 : Int) (cs : List Cell) (h : NoRepeat np cs) :
+    NoRepeat np (collapseSpec np n0 n1 cs) := by
+  intro c hc
+  simp only [collapseSpec, List.mem_map, List.mem_filter] at hc
+  obtain ⟨c0, ⟨hc0, hnot⟩, rfl⟩ := hc
+  apply subst_nodup np n1 n0 c0 (h c0 hc0)
+  simp only [has2, Bool.not_eq_true', Bool.and_eq_false_iff, List.contains_eq_mem, decide_eq_false_iff_not] at hnot
+  exact hnot
+
+/-- guarded operations on the cell groups: a split is taken with a vertex referenced by no cell (what
+    `ref_node_add` of a fresh id returns, given that cells reference valid slots only); every group within its limit -/
+inductive GOp
+  | split (n0 n1 new : Int)
+  | collapse (n0 n1 : Int)
+
+def NoRepeatG (g : Groups) : Prop := NoRepeat 4 g.tet ∧ NoRepeat 3 g.tri ∧ NoRepeat 2 g.edg
+
+def gstep (g : Groups) : GOp → Groups
+  | .split n0 n1 new =>
+    if (g.tet.filter (has2 4 n0 n1)).length ≤ MAX_CELL_SPLIT ∧ (g.tri.filter (has2 3 n0 n1)).length ≤ MAX_CELL_SPLIT ∧
+        (g.edg.filter (has2 2 n0 n1)).length ≤ MAX_CELL_SPLIT ∧
+        g.tet.all (fun c => !(nodesOf 4 c).contains new) ∧ g.tri.all (fun c => !(nodesOf 3 c).contains new) ∧
+        g.edg.all (fun c => !(nodesOf 2 c).contains new)
+    then (splitEdge g n0 n1 new).2 else g
+  | .collapse n0 n1 =>
+    if (g.tet.filter (has2 4 n0 n1)).length ≤ MAX_CELL_COLLAPSE ∧
+        (g.tri.filter (has2 3 n0 n1)).length ≤ MAX_CELL_COLLAPSE ∧
+        (g.edg.filter (has2 2 n0 n1)).length ≤ MAX_CELL_COLLAPSE
+    then ⟨(collapseGroup 4 g.tet n0 n1).2, (collapseGroup 3 g.tri n0 n1).2, (collapseGroup 2 g.edg n0 n1).2⟩ else g
+
+theorem NoRepeat.perm {np : Nat} {a b : List Cell} (h : NoRepeat np b) (p : a.Perm b) : NoRepeat np a :=
+  fun c hc => h c (p.mem_iff.1 hc)
+
+theorem gstep_noRepeat {g : Groups} (h : NoRepeatG g) (o : GOp) : NoRepeatG (gstep g o) := by
+  cases o with
+  | split n0 n1 new =>
+    simp only [gstep]
+    split
+    · rename_i hc
+      obtain ⟨ht, hr, he, f4, f3, f2⟩ := hc
+      obtain ⟨_, p4, p3, p2⟩ := splitEdge_spec g n0 n1 new ht hr he
+      have fr : ∀ (np : Nat) (cs : List Cell), cs.all (fun c => !(nodesOf np c).contains new) = true →
+          Fresh np new cs := by
+        intro np cs hall c hc
+        have := List.all_eq_true.1 hall c hc
+        simpa using this
+      exact ⟨(splitSpec_noRepeat 4 n0 n1 new _ h.1 (fr _ _ f4)).perm p4,
+        (splitSpec_noRepeat 3 n0 n1 new _ h.2.1 (fr _ _ f3)).perm p3,
+        (splitSpec_noRepeat 2 n0 n1 new _ h.2.2 (fr _ _ f2)).perm p2⟩
+    · exact h
+  | collapse n0 n1 =>
+    simp only [gstep]
+    split
+    · rename_i hc
+      obtain ⟨ht, hr, he⟩ := hc
+      exact ⟨(collapseSpec_noRepeat 4 n0 n1 _ h.1).perm ((collapseGroup_spec 4 g.tet n0 n1).1 ht).2,
+        (collapseSpec_noRepeat 3 n0 n1 _ h.2.1).perm ((collapseGroup_spec 3 g.tri n0 n1).1 hr).2,
+        (collapseSpec_noRepeat 2 n0 n1 _ h.2.2).perm ((collapseGroup_spec 2 g.edg n0 n1).1 he).2⟩
+    · exact h
+
+/-- **history_noRepeat_partial**: along every sequence of guarded splits and collapses, after every prefix, no
+    cell repeats a vertex (so the model of `ref_cell_list_with2` stays the model of the C).
+    FULL STATEMENT (not proved): for every list of accepted modelled operations (split, collapse, swap) starting
+    from a mesh in which every cell references valid vertices only, has no repeated vertex and the signed boundary
+    chain `∂φ` vanishes for every alternating face functional `φ`, the same holds after every prefix.  Missing: the
+    swap step (needs the case analysis of `ref_swap_node23`), "references valid vertices only" through the id state
+    (needs `add` returns a previously invalid slot), and chain conformity of a 3-D split (`splitEdge_conforming`:
+    `∂φ (splitEdge M) = ∂(φ pulled back along the split) M`, 12 position cases per tet) - the 2-D swap chain identity
+    is `swapTri_conforming`. -/
+theorem history_noRepeat_partial (ops : List GOp) (g : Groups) (h : NoRepeatG g) :
+    ∀ k, NoRepeatG ((ops.take k).foldl gstep g) := by
+  intro k
+  generalize ops.take k = l
+  induction l generalizing g with
+  | nil => exact h
+  | cons o rest ih => exact ih _ (gstep_noRepeat h o)
+
 /-! ## non-vacuity -/
 
 /-- an edge star: three tets around the edge (0,2) closed by ring vertices 3,4,5 would need six vertices; here
@@ -268,6 +387,14 @@ example : (trialFrame exMesh 0 2 .split).2.1 = true ∧ (trialFrame exMesh 0 2 .
 /-- `splitEdge_spec` / `collapseEdge_subst` / `swapTriEdge_spec` hypotheses on concrete states -/
 example : (exGroups.tet.filter (has2 4 0 2)).length = 2 ∧ (collapseEdge exMesh 0 2).1 = .ok ∧
     (collapseEdge exMesh 0 2).2.g.tet = [[3, 4, 5, 6]] ∧ (collapseEdge exMesh 0 2).2.ids.unusedStk = [2, 1] := by
+  decide
+
+/-- `history_noRepeat_partial`: the start invariant holds of `exGroups` and the guard of a split with the unreferenced
+    vertex 1 is met (the step is not the identity) -/
+example : NoRepeatG exGroups ∧ (gstep exGroups (.split 0 2 1)).tet.length = 5 ∧
+    (gstep (gstep exGroups (.split 0 2 1)) (.collapse 3 4)).tet.length = 2 := by
+  refine ⟨?_, by decide, by decide⟩
+  unfold NoRepeatG NoRepeat
   decide
 
 def exTris : Groups := ⟨[], [[5, 6, 7, 1], [6, 5, 8, 1], [7, 6, 9, 1]], []⟩
